@@ -339,7 +339,7 @@ func c04Multisets(c *mc.Check, maxComp int) {
 // list in two opposite orders in one process because the result cache is
 // process-wide.
 func c04API(c *mc.Check, maxTok int) {
-	toks := append(append([]string{}, c04Tokens...), " ", " ", "bytes")
+	toks := append(append([]string{}, c04Tokens...), " ", "\u00a0", "\u2003", "bytes", "à")
 	replay := func(raw json.RawMessage) string {
 		var u string
 		json.Unmarshal(raw, &u)
